@@ -21,6 +21,7 @@ pub unsafe fn match_uri_vectored(bytes: &mut Bytes) {
 #[allow(non_snake_case, overflowing_literals)]
 #[allow(unused)]
 unsafe fn match_url_char_32_avx(buf: &[u8]) -> usize {
+    #[cfg(httparse_verif)] crate::verif::op(crate::verif::OP_LOAD, 32, buf.as_ptr() as usize, buf.as_ptr() as usize, buf.as_ptr() as usize + buf.len());
     // NOTE: This check might be not necessary since this function is only used in
     // `match_uri_vectored` where buffer overflow is taken care of.
     debug_assert!(buf.len() >= 32);
@@ -96,6 +97,7 @@ pub unsafe fn match_header_value_vectored(bytes: &mut Bytes) {
 #[allow(non_snake_case)]
 #[allow(unused)]
 unsafe fn match_header_value_char_32_avx(buf: &[u8]) -> usize {
+    #[cfg(httparse_verif)] crate::verif::op(crate::verif::OP_LOAD, 32, buf.as_ptr() as usize, buf.as_ptr() as usize, buf.as_ptr() as usize + buf.len());
     debug_assert!(buf.len() >= 32);
 
     #[cfg(target_arch = "x86")]
